@@ -1083,6 +1083,8 @@ def oracle_C14(an):
             v.append("cat_is_hold reports %d after call %s although a command is held" % (l.q[1], l.op))
         if not held and l.q[1] == 2:
             v.append("cat_is_hold reports HOLD after call %s although no command is held" % l.op)
+    if not v:
+        v += stuck_without_hold(an)
     return v
 
 
@@ -1342,6 +1344,16 @@ def obs_C18(an):
     return sorted(set(map(str, facts))), h, rets
 
 
+def stuck_without_hold(an):
+    """cat_is_hold returns HOLD iff a command is suspended: a parser that stops making progress for good — a drain with accepting
+    io and final handler answers that never reaches OK (the C15 liveness rule, which only judges drains that end with
+    cat_is_hold = not held) — is suspended without saying so"""
+    try:
+        return ["the parser is suspended without cat_is_hold reporting HOLD: " + x for x in oracle_C15(an) if "never reached OK" in x]
+    except Exception:
+        return []
+
+
 def oracle_C18(an):
     if an.uns_hold:
         return None
@@ -1385,6 +1397,7 @@ def oracle_C18(an):
     h = oracle_C14(an)
     if h:
         v += [x for x in h if "cat_is_hold" in x]
+    v += stuck_without_hold(an)
     return v
 
 
